@@ -32,6 +32,11 @@ use lru::LruCache;
 use rayon::prelude::*;
 use regex::Regex;
 use serde_json::{Map, Value};
+#[cfg(melda_verif)]
+use crate::verif_hooks::{HashMap, HashSet};
+#[cfg(melda_verif)]
+use std::collections::{BTreeMap, BTreeSet, VecDeque};
+#[cfg(not(melda_verif))]
 use std::collections::{BTreeMap, BTreeSet, HashMap, HashSet, VecDeque};
 use std::fmt;
 use std::num::NonZeroUsize;
@@ -2633,6 +2638,83 @@ impl Melda {
         } else {
             self.rebuild_array_order(base_revision, rt)
         }
+    }
+}
+
+// Read-only accessors for the external verification harness (compiled only with `--cfg melda_verif`)
+#[cfg(melda_verif)]
+impl Melda {
+    /// Load status of every known delta block
+    pub fn verif_delta_status(&self) -> BTreeMap<String, &'static str> {
+        self.deltas
+            .read()
+            .unwrap()
+            .iter()
+            .map(|(k, d)| {
+                let s = match d.read().unwrap().status {
+                    Status::Pending => "pending",
+                    Status::Ready => "ready",
+                    Status::Applied => "applied",
+                    Status::Blocked => "blocked",
+                };
+                (k.to_string(), s)
+            })
+            .collect()
+    }
+
+    /// Dump of the revision tree of an object: (revision, parent, staged), sorted by revision string
+    pub fn verif_dump_tree(&self, uuid: &str) -> Option<Vec<(String, Option<String>, bool)>> {
+        let docs_r = self.documents.read().unwrap();
+        let rt = docs_r.get(uuid)?;
+        let rt_r = rt.lock().unwrap();
+        let mut v: Vec<(String, Option<String>, bool)> = rt_r
+            .get_revisions()
+            .iter()
+            .map(|(r, e)| {
+                (
+                    r.to_string(),
+                    e.get_parent().as_ref().map(|p| p.to_string()),
+                    e.is_staging(),
+                )
+            })
+            .collect();
+        v.sort();
+        Some(v)
+    }
+
+    /// Live leaves of the revision tree of an object (sorted ascending by the revision order)
+    pub fn verif_leafs(&self, uuid: &str) -> Option<Vec<String>> {
+        let docs_r = self.documents.read().unwrap();
+        let rt = docs_r.get(uuid)?;
+        let rt_r = rt.lock().unwrap();
+        Some(rt_r.get_leafs().iter().map(|r| r.to_string()).collect())
+    }
+
+    /// Reconstructed order of one stored version of an array descriptor (no merging)
+    pub fn verif_array_order(&self, uuid: &str, revision: &str) -> Result<Vec<Value>> {
+        let revision = Revision::from(revision)?;
+        let docs_r = self.documents.read().unwrap();
+        let rt = docs_r
+            .get(uuid)
+            .ok_or_else(|| anyhow!("unknown_document"))?;
+        let rt_r = rt.lock().unwrap();
+        if !rt_r.get_revisions().contains_key(&revision) {
+            bail!("invalid object revision");
+        }
+        self.rebuild_array_order(&revision, &rt_r)
+    }
+
+    /// Identifiers of the packs that have been indexed
+    pub fn verif_applied_packs(&self) -> BTreeSet<String> {
+        self.data.read().unwrap().applied_packs().clone()
+    }
+
+    /// True if the tree-level staging flag of the object is set
+    pub fn verif_tree_has_staging(&self, uuid: &str) -> Option<bool> {
+        let docs_r = self.documents.read().unwrap();
+        let rt = docs_r.get(uuid)?;
+        let rt_r = rt.lock().unwrap();
+        Some(rt_r.has_staging())
     }
 }
 
